@@ -58,12 +58,12 @@ func raceCases(tier string) int {
 
 func raceFloors(tier string) map[string]int64 {
 	return scaleFloors(map[string]int64{
-		"rounds": 38, "commits_while_submitters_running": 50, "commits_foreign_concurrent": 20, "blocks_validated_by_replica": 100,
-		"admitted_after_or_during_a_concurrent_commit": 220, "concurrent_duplicates": 470, "foreign_block_txs_also_submitted": 25,
-		"live_reaps_checked": 200, "live_reaped_txs_checked": 790, "probes_nonempty": 30, "nonce_positions_checked": 900,
-		"promoted": 50, "reader_ops": 20000, "submissions": 4500,
-		"submit/valid/accepted": 1200, "submit/conf/accepted": 115, "submit/conf-conflict/rejected": 130, "submit/future/accepted": 70,
-		"submit/stale/rejected": 80, "submit/underfunded/rejected": 115,
+		"rounds": 38, "commits_while_submitters_running": 90, "commits_foreign_concurrent": 18, "blocks_validated_by_replica": 130,
+		"admitted_after_or_during_a_concurrent_commit": 800, "concurrent_duplicates": 450, "foreign_block_txs_also_submitted": 22,
+		"live_reaps_checked": 270, "live_reaped_txs_checked": 850, "probes_nonempty": 30, "nonce_positions_checked": 700,
+		"promoted": 65, "reader_ops": 20000, "submissions": 4400,
+		"submit/valid/accepted": 1200, "submit/conf/accepted": 130, "submit/conf-conflict/rejected": 125, "submit/future/accepted": 70,
+		"submit/stale/rejected": 95, "submit/underfunded/rejected": 100,
 	}, raceCases(tier), 24)
 }
 
